@@ -119,6 +119,10 @@ EXPORT errno_t _asctime_s_chk(char *dest, rsize_t dmax, const struct tm *tm,
     size_t len;
 
     CHK_DEST_NULL("asctime_s")
+    /* a runtime-constraint violation leaves an empty string (C11 K.3.8.2) */
+    if (likely(dmax > 0 && dmax <= RSIZE_MAX_STR)) {
+        *dest = '\0';
+    }
     if (unlikely(dmax < 26)) {
         invoke_safe_str_constraint_handler("asctime_s: dmax is too small", NULL,
                                            ESLEMIN);
